@@ -216,6 +216,13 @@ func C05(r *eng.Run) {
 	p.EOFWithData = r.T.Chance(sim.LFault, 1, 3) // the last bytes arrive together with io.EOF
 	p.ZeroReads = r.T.Chance(sim.LFault, 1, 8)
 	cfg.ZeroBuf = (cfg.App == AppReader || cfg.App == AppNextReader) && r.T.Chance(sim.LFault, 1, 8)
+	if cfg.App == AppReader && cfg.Bufio == 0 && k > 0 && r.T.Chance(sim.LFault, 1, 5) {
+		// One temporary read error somewhere in the valid prefix (inside a
+		// data payload or exactly between two fragments); the application
+		// retries. What follows is judged as before.
+		cfg.Retry, cfg.NoDiscard = true, true
+		p.Transient = TransientIn(r, s.Frames[:k])
+	}
 	if lastOnWire && p.EOFWithData && payLen == 0 {
 		r.Probe("offending_header_ends_with_eof_in_same_read")
 	}
